@@ -418,6 +418,7 @@ func (s *Sim) Run() error {
 		if k != fifo {
 			s.NonFifo++
 		}
+		var delta time.Duration
 		s.mu.Lock()
 		if p.state == Sleeping {
 			s.TimerFired++
@@ -428,12 +429,20 @@ func (s *Sim) Run() error {
 				}
 			}
 			if p.wake > s.now {
+				delta = p.wake - s.now
 				s.now = p.wake
 			}
 		}
 		p.state = Running
 		s.Steps++
 		s.mu.Unlock()
+		if delta > 0 {
+			// The bubble's own (fake) clock follows the simulated one: timers the library creates
+			// itself (time.After, time.NewTimer, context deadlines) that fall due within the jump
+			// fire now, in time order, and their goroutines run up to their next yield.
+			time.Sleep(delta)
+			synctest.Wait()
+		}
 		for i := 0; i < len(p.ID); i++ {
 			s.SchedHash = (s.SchedHash ^ uint64(p.ID[i])) * 1099511628211
 		}
